@@ -195,6 +195,10 @@ func TestC15(t *testing.T) {
 				return ""
 			}
 			if ans.Returned.Err != "" && strings.Contains(ans.Returned.Err, fallbackText) && len(m.Producible()) > 0 {
+				if again := fallbackRepeats(c); again != "" {
+					st.Record(c, true, append(c.Labels, "fallback-error-confirmed-by-rerun"))
+					return fmt.Sprintf("the run repeatedly ends with the fallback verdict %q although the reference says outputs %v are producible", short(again, 120), m.Producible())
+				}
 				st.ForeignAnomaly("C09", c)
 				return ""
 			}
